@@ -296,6 +296,15 @@ impl TransformerContext {
         self.rng = RefCell::new(Pcg32::seed_from_u64(seed));
     }
 
+    /// Current state of the document PRNG, for `restore_rng()`.
+    pub fn save_rng(&self) -> Pcg32 {
+        self.rng.borrow().clone()
+    }
+
+    pub fn restore_rng(&mut self, rng: Pcg32) {
+        self.rng = RefCell::new(rng);
+    }
+
     fn ensure_scope(&mut self) -> &mut Scope {
         if self.scope_stack.is_empty() {
             let scope = Scope::default();
